@@ -507,7 +507,17 @@ def via_connection_case(ctx, case):
         ctx.nt('via', v, other, x, y, z, case['how'])
 
 
-COMPONENTS = {'via_connection': via_connection_case,
+def overlap_case(ctx, case):
+    """Two connections of different protocol versions coding positions /
+    block records at the same time: one call suspended at its k-th line, the
+    other runs in between (C05's overlap machinery restricted to the
+    packets that carry positions and multi-block-change records)."""
+    from props import c05_roundtrip as P5
+    P5.overlap_case(ctx, case)
+
+
+COMPONENTS = {'overlap': overlap_case,
+              'via_connection': via_connection_case,
               'reuse': reuse_case, 'layout': layout_case,
               'switch': switch_case,
               'position': position_case, 'word': word_case,
@@ -665,6 +675,23 @@ def t_random(ctx, n):
     hyp(ctx, 'random', strat, body, n)
 
 
+def t_overlap(ctx, step):
+    # indices 5..8 of C05's packet list: waypoint arrays at 340 / 498,
+    # multi-block-change at 736 / 751
+    for a, b in ((5, 6), (6, 5), (7, 8), (8, 7), (5, 8), (7, 6)):
+        for ops in ('ww', 'rr', 'wr', 'rw'):
+            for k in range(1, 3000, step):
+                before = ctx.labels.get('overlap_point_beyond_call', 0)
+                overlap_case(ctx, {'version': 757, 'a': a, 'b': b,
+                                   'ta': None, 'tb': None, 'k': k,
+                                   'ops': ops})
+                if ctx.labels.get('overlap_point_beyond_call', 0) > before:
+                    break
+    ctx.sample({'a': 7, 'b': 8, 'ops': 'rr', 'k': 40}, 'overlap')
+    ctx.exhaustive_done('position arrays (340/498) and block records '
+                        '(736/751): suspension points x 4 read/write pairs')
+
+
 def t_via_connection(ctx, n):
     import minecraft
     sup = list(minecraft.SUPPORTED_PROTOCOL_VERSIONS)
@@ -698,7 +725,8 @@ def tasks(tier):
     n = len(known_protocols())
     tl = [('switch', t_switch, {}), ('sections_records',
                                      t_sections_records, {}),
-          ('via_connection', t_via_connection, dict(n=60 if q else 1500))]
+          ('via_connection', t_via_connection, dict(n=60 if q else 1500)),
+          ('overlap', t_overlap, dict(step=2 if q else 1))]
     nsh = 14
     for i in range(nsh):
         tl.append(('versions_%d' % i, t_versions,
